@@ -10,6 +10,9 @@ def gen_histories(tier, rng):
     for _ in range(n):
         doc, cfg, steps = make_history(rng)
         out.append(history_request(doc.render(), cfg, steps))
+    for _ in range(120 if tier == "quick" else 10000):
+        b, cfg, steps = pause_scenario(rng)
+        out.append(history_request(b, cfg, steps))
     return out
 
 def suites():
